@@ -962,6 +962,8 @@ class Patron(object):
         if self.redirects:
             redirect = self.redirects[-1]
             location = redirect['headers'].get('location')
+            if not location:  # nowhere to redirect to
+                return False
             # location may be relative reference so resolve against redirected url
             host = self.requester.hostname
             if u':' in host:  # ipv6
